@@ -8,9 +8,9 @@ from mc.models import DATA
 PREFIX = 24  # bytes of expected/observed kept in reports (hex)
 
 
-def placements(states, nslots, first_slot=0):
+def placements(states, nslots, first_slot=0, placed=(DATA,)):
     """Every injective placement of the DATA units of `states` into slots first_slot .. first_slot+nslots-1."""
-    idx = [i for i, s in enumerate(states) if s == DATA]
+    idx = [i for i, s in enumerate(states) if s in placed]
     for perm in itertools.permutations(range(first_slot, first_slot + nslots), len(idx)):
         slots = [None] * len(states)
         for i, p in zip(idx, perm):
@@ -18,10 +18,10 @@ def placements(states, nslots, first_slot=0):
         yield slots
 
 
-def window_models(alphabet, width, nslots, first_slot=0):
+def window_models(alphabet, width, nslots, first_slot=0, placed=(DATA,)):
     """Full product: every state assignment x every injective placement of its DATA units."""
     for states in itertools.product(alphabet, repeat=width):
-        for slots in placements(states, nslots, first_slot):
+        for slots in placements(states, nslots, first_slot, placed):
             yield list(states), slots
 
 
